@@ -54,6 +54,7 @@ SOURCE_OBLIGATIONS = [
 ]
 ENV = dict(os.environ, ASAN_OPTIONS="detect_leaks=0:abort_on_error=0", UBSAN_OPTIONS="print_stacktrace=1")
 NPROC = int(os.environ.get("VERIF_JOBS", "16"))
+GEOM = {}   # program id -> (log points with a wrapped items ring, of these with count >= limit, max ring capacity)
 
 
 # ---------------------------------------------------------------------------------------------- running things
@@ -66,6 +67,11 @@ def run_harness_chunk(hx, items):
     rc, out, err = run_cmd([hx], input=b"".join(data), timeout=1200, env=ENV)
     res = {}
     for line in out.decode(errors="replace").splitlines():
+        if line.startswith("S "):
+            g = line.split()
+            if len(g) == 5:
+                GEOM[g[1]] = (int(g[2]), int(g[3]), int(g[4]))
+            continue
         if not line.startswith("P "):
             continue
         parts = line.split(" ", 4)
@@ -179,6 +185,13 @@ def gen_programs(ctx, quick, boost):
     for k in range(nself):
         items.append(("S%d" % k, r.below(1 << 31), P.random_program(r, max_ch=2, same_chan=True)))
     dist["random with same-channel selects"] = nself
+    # long single-fiber give/take pumps that walk the items ring buffer round (head > tail, resizes) before a select /
+    # give on the full channel: the capacity rule must not depend on where the ring happens to be
+    nring = (700 if quick else 30000) * boost
+    r = ctx.rng.fork("ringwrap")
+    for k in range(nring):
+        items.append(("W%d" % k, r.below(1 << 31), P.ringwrap_program(r)))
+    dist["ring-wrap pumps (1-2 channels, caps 1..3, up to 11 values pumped through before a select/give on the full channel)"] = nring
     return items, dist
 
 
@@ -441,6 +454,13 @@ def run(ctx, only=None):
         "queue_ops": nq, "queue_diffs": len(qdiff),
         "oracle_failing_programs": len(failing), "oracle_failure_kinds": {k: len(v) for k, v in nviol_kinds.items()},
         "selfmatch_select_anomalies": selfmatch_anomalies, "cfg_bits": cfgbits, "broken": broken[:8],
+        "ring_geometry": {
+            "programs_with_wrapped_items_ring": sum(1 for pid, _, _ in items if GEOM.get(pid, (0, 0, 0))[0] > 0),
+            "log_points_with_wrapped_items_ring": sum(GEOM.get(pid, (0, 0, 0))[0] for pid, _, _ in items),
+            "log_points_with_wrapped_and_full_items_ring": sum(GEOM.get(pid, (0, 0, 0))[1] for pid, _, _ in items),
+            "max_items_ring_capacity": max([GEOM.get(pid, (0, 0, 0))[2] for pid, _, _ in items] or [0]),
+            "programs_whose_items_ring_was_resized_beyond_4": sum(1 for pid, _, _ in items if GEOM.get(pid, (0, 0, 0))[2] > 4),
+        },
     }
     return ctx.finish("proof", cov, assumptions=[
         "model = lean/JanetModel/Ev (hand-written mirror of ev.c's single-threaded channel code); tie = regenerated Gen/Ev.lean + event-log equality",
